@@ -1287,7 +1287,10 @@ lyd_change_node_value(struct lyd_node_term *term, struct lyd_value *val, ly_bool
             rc = ((struct lysc_node_leaf *)term->schema)->type->plugin->duplicate(LYD_CTX(term), val, &term->value);
         }
 
-        /* reinserting */
+        /* update the hash before reinserting, the node is inserted into the parent hash table with it */
+        lyd_hash(target);
+
+        /* reinserting, also into the parent hash table */
         lyd_insert_node(NULL, &first, target, LYD_INSERT_NODE_DEFAULT);
     } else {
         /* unlink hash */
@@ -1300,10 +1303,11 @@ lyd_change_node_value(struct lyd_node_term *term, struct lyd_value *val, ly_bool
         } else {
             rc = ((struct lysc_node_leaf *)term->schema)->type->plugin->duplicate(LYD_CTX(term), val, &term->value);
         }
-    }
 
-    lyd_hash(target);
-    rc = lyd_insert_hash(target);
+        /* update the hash and insert the node back into the parent hash table */
+        lyd_hash(target);
+        rc = lyd_insert_hash(target);
+    }
 
     return rc;
 }
